@@ -9,6 +9,7 @@ import Driver.C20
 import Driver.C13
 import Driver.C12
 import Driver.C09
+import Driver.C16
 /-! nvdriver: line protocol. Each input line `<PROP> <tokens…>` is answered by exactly one line:
     `ok[ …]` | `diff …` (model and implementation disagree) | `specviol …` (the implementation's
     own answer violates the property predicate) | `bad-op`. -/
@@ -43,6 +44,7 @@ def dispatch (d : DS) (line : String) : DS × String :=
   | "C13" :: rest => let (s, o) := Driver.C13.handle d.c13 rest; ({ d with c13 := s }, o)
   | "C09" :: rest => let (s, o) := Driver.C09.handle d.c09 rest; ({ d with c09 := s }, o)
   | "C12" :: rest => (d, Driver.C12.handle rest)
+  | "C16" :: rest => (d, Driver.C16.handle rest)
   | "C14" :: rest => (d, Driver.C14.handle rest)
   | "C04" :: rest => (d, Driver.C04.handle rest)
   | "C08" :: rest => (d, Driver.C04.handle rest)
